@@ -46,7 +46,7 @@ class CHECK(Check):
     theorems = ["C20_columns", "C20_rows", "C20_shape", "C20_empty"]
     rule = ("register types with 0-5 user-defined properties (names sorting before/after each other and around the framework's "
             "own property names) over mixed field kinds x files of 0-10 registers of the type interleaved with registers of "
-            "another type and free-text lines, missing values (None/NaN/NaT) in any position; observed: column names, shape, "
+            "another type, of a SUBCLASS type adding 0-2 properties, and free-text lines; 1-3 successive views of parent / child / other type on the same file; missing values (None/NaN/NaT) in any position; observed: column names, shape, "
             "every cell after null canonicalisation, custom_properties, and the registers' data after editing the frame in "
             "place. non-trivial = at least 2 registers of the type and 1 property; distinct = hash")
     not_exhibited = ["pandas dtype inference and null representation (cells are compared after null canonicalisation)"]
@@ -58,29 +58,37 @@ class CHECK(Check):
             names = rng.sample(NAME_POOL, nprops)
             kinds = [rng.choice(["int", "float", "lit", "date"]) for _ in range(nprops)]
             other_names = rng.sample(NAME_POOL, rng.randint(0, 2))
-            elems = []
-            for _ in range(rng.randint(0, 12)):
-                k = rng.random()
-                if k < 0.6:
-                    vals = []
-                    for kd in kinds:
-                        r = rng.random()
-                        if r < 0.2:
-                            vals.append(rng.choice([None, ["nan"] if kd == "float" else None, ["nat"] if kd == "date" else None]))
-                        elif kd == "int":
-                            vals.append(["int", rng.randint(-50, 50)])
-                        elif kd == "float":
-                            vals.append(["float", fl.f2b(rng.choice([0.0, 1.5, -2.25, 1e10, 3.0]))])
-                        elif kd == "lit":
-                            vals.append(["str", rng.choice(["", "ab", "x y", "NaN"])])
-                        else:
-                            vals.append(["date", [rng.randint(1990, 2030), rng.randint(1, 12), rng.randint(1, 28), 0, 0, 0, 0]])
-                    elems.append([0, vals])
-                elif k < 0.8:
-                    elems.append([1, [["int", rng.randint(0, 9)] for _ in other_names]])
-                else:
-                    elems.append([-1, "free text\n"])
-            yield {"names": names, "kinds": kinds, "other_names": other_names, "elems": elems, "req": rng.choice([0, 0, 0, 1])}
+            extra = [n for n in rng.sample(NAME_POOL, rng.randint(0, 2)) if n not in names]
+            ekinds = [rng.choice(["int", "lit"]) for _ in extra]
+            def gen_elems(family_type):
+                elems = []
+                for _ in range(rng.randint(0, 10)):
+                    k = rng.random()
+                    if k < 0.6:
+                        vals = []
+                        for kd in kinds + (ekinds if family_type == 2 else []):
+                            r = rng.random()
+                            if r < 0.2:
+                                vals.append(rng.choice([None, ["nan"] if kd == "float" else None, ["nat"] if kd == "date" else None]))
+                            elif kd == "int":
+                                vals.append(["int", rng.randint(-50, 50)])
+                            elif kd == "float":
+                                vals.append(["float", fl.f2b(rng.choice([0.0, 1.5, -2.25, 1e10, 3.0]))])
+                            elif kd == "lit":
+                                vals.append(["str", rng.choice(["", "ab", "x y", "NaN"])])
+                            else:
+                                vals.append(["date", [rng.randint(1990, 2030), rng.randint(1, 12), rng.randint(1, 28), 0, 0, 0, 0]])
+                        elems.append([family_type, vals])
+                    elif k < 0.8:
+                        elems.append([1, [["int", rng.randint(0, 9)] for _ in other_names]])
+                    else:
+                        elems.append([-1, "free text\n"])
+                return elems
+            files = [gen_elems(0), gen_elems(2)]
+            # a view = (file, requested type); file 0 holds parent-type registers, file 1 child-type registers
+            reqs = rng.choice([[[0, 0]], [[0, 0], [1, 2]], [[1, 2], [0, 0]], [[0, 0], [1, 2], [0, 0]], [[0, 1], [0, 0]], [[1, 2]],
+                               [[1, 0]], [[0, 0], [1, 0], [1, 1]], [[0, 2]]])
+            yield {"names": names, "kinds": kinds, "other_names": other_names, "extra": extra, "files": files, "reqs": reqs}
 
     def impl(self, case):
         from cfinterface.components.register import Register
@@ -94,50 +102,69 @@ class CHECK(Check):
                 ns[n] = property(lambda self, i=i: self.data[i])
             return type(name, (Register,), ns)
 
+        def mkchild(name, base, names, offset):
+            ns = {"__slots__": []}
+            for i, n in enumerate(names):
+                ns[n] = property(lambda self, i=i: self.data[offset + i])
+            return type(name, (base,), ns)
+
         T0 = mkcls("T0", "T0", case["names"])
         T1 = mkcls("T1", "T1", case["other_names"])
-        types = [T0, T1]
-        data = RegisterData(DefaultRegister(data=""))
+        T2 = mkchild("T2", T0, case["extra"], len(case["names"]))
+        types = [T0, T1, T2]
         regs = []
-        for i, d in case["elems"]:
-            if i < 0:
-                data.append(DefaultRegister(data=d))
-            else:
-                r = types[i](data=[fl.py_value(v) for v in d])
-                regs.append(r)
-                data.append(r)
-        f = RegisterFile(data)
+        fobjs = []
+        for elems in case["files"]:
+            data = RegisterData(DefaultRegister(data=""))
+            for i, d in elems:
+                if i < 0:
+                    data.append(DefaultRegister(data=d))
+                else:
+                    r = types[i](data=[fl.py_value(v) for v in d])
+                    regs.append(r)
+                    data.append(r)
+            fobjs.append(RegisterFile(data))
+        views = []
         try:
-            df = f._as_df(types[case["req"]])
-            cols = [str(c) for c in df.columns]
-            cells = [[canon_cell(df.iloc[i, j]) for j in range(df.shape[1])] for i in range(df.shape[0])]
-            shape = list(df.shape)
-            cp = T0().custom_properties
             before = [[fl.canon_value(x) for x in r.data] for r in regs]
-            # edit the frame in place
-            if df.shape[0] and df.shape[1]:
-                df.iloc[0, 0] = None
-                df[df.columns[-1]] = 12345
-                df.drop(df.index, inplace=True)
+            for fi, rq in case["reqs"]:
+                df = fobjs[fi]._as_df(types[rq])
+                cols = [str(c) for c in df.columns]
+                cells = [[canon_cell(df.iloc[i, j]) for j in range(df.shape[1])] for i in range(df.shape[0])]
+                views.append({"cols": cols, "shape": list(df.shape), "cells": cells})
+                # edit the frame in place
+                if df.shape[0] and df.shape[1]:
+                    df.iloc[0, 0] = None
+                    df[df.columns[-1]] = 12345
+                    df.drop(df.index, inplace=True)
+            cp = [T0().custom_properties, T2().custom_properties]
             after = [[fl.canon_value(x) for x in r.data] for r in regs]
         except Exception as e:
             return {"raised": type(e).__name__ + ": " + str(e)[:100]}
-        return {"cols": cols, "shape": shape, "cells": cells, "custom": cp, "aliased": before != after}
+        return {"views": views, "custom": cp, "aliased": before != after}
+
+    def names_of(self, case, i):
+        return [case["names"], case["other_names"], case["names"] + case["extra"]][i]
 
     def model_arg(self, case):
-        types = [case["names"] + FRAMEWORK, case["other_names"] + FRAMEWORK]
-        regs = []
-        for i, d in case["elems"]:
-            if i < 0:
-                continue
-            names = case["names"] if i == 0 else case["other_names"]
-            regs.append([i, [[n, fl.value_sx(v)] for n, v in zip(names, d)]])
-        return [case["req"], types, regs]
+        types = [self.names_of(case, i) + FRAMEWORK for i in range(3)]
+        sub = [[1, 0, 0], [0, 1, 0], [1, 0, 1]]
+        views = []
+        for fi, rq in case["reqs"]:
+            regs = []
+            for i, d in case["files"][fi]:
+                if i >= 0:
+                    regs.append([i, [[n, fl.value_sx(v)] for n, v in zip(self.names_of(case, i), d)]])
+            views.append([rq, regs])
+        return [types, sub, views]
 
     def model_obs(self, case, res):
-        cols = [lib.to_str(c) for c in res[0]]
-        cells = [[canon_val(self._back(c)) for c in row] for row in res[1]]
-        return {"cols": cols, "shape": [len(cells), len(cols)], "cells": cells, "custom": sorted(case["names"]), "aliased": False}
+        views = []
+        for r in res:
+            cols = [lib.to_str(c) for c in r[0]]
+            cells = [[canon_val(self._back(c)) for c in row] for row in r[1]]
+            views.append({"cols": cols, "shape": [len(cells), len(cols)], "cells": cells})
+        return {"views": views, "custom": [sorted(case["names"]), sorted(case["names"] + case["extra"])], "aliased": False}
 
     @staticmethod
     def _back(sx):
@@ -151,21 +178,25 @@ class CHECK(Check):
     def oracle(self, case, obs):
         if "raised" in obs:
             return "_as_df raised: %s" % obs["raised"]
-        names = case["names"] if case["req"] == 0 else case["other_names"]
-        rows = [d for i, d in case["elems"] if i == case["req"]]
-        if obs["custom"] != sorted(case["names"]):
+        if obs["custom"] != [sorted(case["names"]), sorted(case["names"] + case["extra"])]:
             return "custom_properties is not the sorted list of user-defined properties"
-        if not rows or not names:
-            if obs["shape"][0] != 0 or obs["shape"][1] != 0:
-                return "view is not empty although there is no register of the type or no property"
-        else:
+        isa = {0: (0, 2), 1: (1,), 2: (2,)}
+        for (fi, rq), v in zip(case["reqs"], obs["views"]):
+            members = [(i, d) for i, d in case["files"][fi] if i in isa[rq]]
+            # a file holds registers of one exact type per family, so "the type's properties" is unambiguous
+            names = self.names_of(case, members[0][0]) if members else []
+            if not members or not names:
+                if v["shape"][0] != 0 or v["shape"][1] != 0:
+                    return "view is not empty although there is no register of the type or no property"
+                continue
             cols = sorted(names)
-            if obs["cols"] != cols:
+            if v["cols"] != cols:
                 return "columns are not the user-defined properties of the type"
-            if obs["shape"] != [len(rows), len(cols)]:
+            if v["shape"] != [len(members), len(cols)]:
                 return "view does not have one row per register of the type"
-            for r, row in zip(rows, obs["cells"]):
-                exp = [canon_val(r[names.index(c)]) for c in cols]
+            for (i, r), row in zip(members, v["cells"]):
+                nm = self.names_of(case, i)
+                exp = [canon_val(r[nm.index(c)]) for c in cols]
                 if row != exp:
                     return "cell differs from the register's property value"
         if obs["aliased"]:
@@ -173,20 +204,22 @@ class CHECK(Check):
         return None
 
     def nontrivial(self, case, obs):
-        return len(case["names"]) >= 1 and sum(1 for i, _ in case["elems"] if i == 0) >= 2 and case["req"] == 0
+        return len(case["names"]) >= 1 and sum(1 for i, _ in case["files"][0] + case["files"][1] if i in (0, 2)) >= 2
 
     def classify(self, case):
-        return {"props_%d" % len(case["names"]): 1, "regs_%02d" % sum(1 for i, _ in case["elems"] if i == case["req"]): 1,
-                "req_%d" % case["req"]: 1}
+        return {"props_%d" % len(case["names"]): 1, "regs_%02d" % sum(1 for i, _ in case["files"][0] + case["files"][1] if i in (0, 2)): 1,
+                "views_%d" % len(case["reqs"]): 1, "child_props_%d" % len(case["extra"]): 1}
 
     def signature(self, case, why):
         return why.split(":")[0]
 
     def shrink(self, case):
-        for i in range(len(case["elems"])):
-            c = dict(case)
-            c["elems"] = case["elems"][:i] + case["elems"][i + 1:]
-            yield c
+        for fi in (0, 1):
+            for i in range(len(case["files"][fi])):
+                c = dict(case)
+                c["files"] = [list(x) for x in case["files"]]
+                del c["files"][fi][i]
+                yield c
 
     def neighbours(self, case, rng):
         return []
